@@ -790,3 +790,35 @@ Proof.
   - exfalso. pose proof (find_none _ _ E j0 (proj2 (In_rng j0 m) Hj0)) as Hn. cbn beta in Hn.
     unfold rel_of in T0. congruence.
 Qed.
+
+(* ---------- models <-> witnesses, generically ---------- *)
+(* whenever the satisfying assignments are exactly the graphs of the functions with property P (and P only
+   looks at the values on 1..k), decoding and encoding are mutually inverse bijections *)
+Lemma char_bijection (holds : (Z -> bool) -> Prop) (off k N : Z) (P : (Z -> Z) -> Prop) :
+  0 <= off -> 0 <= k ->
+  (forall phi psi, (forall i, 1 <= i <= k -> phi i = psi i) -> P phi -> P psi) ->
+  (forall phi, P phi -> forall i, 1 <= i <= k -> 1 <= phi i <= N) ->
+  (forall a, holds a <-> exists phi, graph_of (rel_of a off N) phi k N /\ P phi) ->
+  (forall a, holds a -> P (dec_map a off N)) /\
+  (forall phi, P phi -> holds (enc_map off N phi)) /\
+  (forall phi, P phi -> forall i, 1 <= i <= k -> dec_map (enc_map off N phi) off N i = phi i) /\
+  (forall a, holds a -> forall v, off < v <= off + k * N -> enc_map off N (dec_map a off N) v = a v).
+Proof.
+  intros Hoff Hk Pext Prange Hchar.
+  assert (Hdec : forall a, holds a -> graph_of (rel_of a off N) (dec_map a off N) k N /\ P (dec_map a off N)).
+  { intros a H. apply Hchar in H as [phi [G HP]].
+    assert (G' : graph_of (rel_of a off N) (dec_map a off N) k N).
+    { apply dec_map_graph; [eapply graph_of_total|eapply graph_of_functional]; eauto. }
+    split; [exact G'|]. apply (Pext phi); [|exact HP]. intros i Hi. apply (graph_of_unique _ _ _ _ _ G G' i Hi). }
+  assert (Henc : forall phi, P phi -> holds (enc_map off N phi)).
+  { intros phi HP. apply Hchar. exists phi. split; [|exact HP]. apply enc_map_graph; [assumption|now apply Prange]. }
+  split; [|split; [|split]].
+  - intros a H. now apply Hdec.
+  - exact Henc.
+  - intros phi HP i Hi. destruct (Hdec _ (Henc phi HP)) as [G _].
+    assert (G' : graph_of (rel_of (enc_map off N phi) off N) phi k N) by (apply enc_map_graph; [assumption|now apply Prange]).
+    apply (graph_of_unique _ _ _ _ _ G G' i Hi).
+  - intros a H v Hv. destruct (Hdec a H) as [G HP].
+    apply (graph_of_same_vars _ _ off k N (dec_map a off N)); try assumption.
+    apply enc_map_graph; [assumption|now apply Prange].
+Qed.
